@@ -6,6 +6,8 @@ compared structurally (classes, bound arguments, order, NaN = NaN, signed
 zero, datetime stays datetime) with the original value.  Two cooperating
 components (dumper + loader) are observed at their public boundaries only.
 """
+import re
+
 import yaml
 
 import yatiml
@@ -246,7 +248,7 @@ def run_value(ctx, spec, t, v):
             ctx.violation(
                 'C05 load-of-dump-raised %s%s' % (
                     type(x).__name__,
-                    mech if mech else ' ' + fail_feature(x)),
+                    mech if mech else ' ' + fail_feature(x, text)),
                 'load(dumps(v)) raised %s: %s; dump %r; value %s' % (
                     type(x).__name__, str(x)[-300:], text[:300],
                     c06.short(V.vdigest(v))), case)
@@ -295,8 +297,15 @@ def plainish(v, d=0):
     return '%s:%s' % (type(v).__name__, v)
 
 
-def fail_feature(exc):
+def fail_feature(exc, text=''):
     msg = str(exc)
+    if 'Invalid value for a scalar' in msg and \
+            'tag:yaml.org,2002:timestamp' in msg and re.search(
+                r"!!timestamp '[^']*[-+]\d\d:\d\d:\d\d(\.\d+)?'",
+                text or ''):
+        # a datetime whose UTC offset is no whole number of minutes was
+        # written as isoformat() under an explicit tag
+        return 'timestamp-with-utc-offset-not-in-whole-minutes'
     for pat, name in (('Could not determine which', 'ambiguous'),
                       ('Expected a string matching', 'string-like-expected'),
                       ('Expected a', 'type-mismatch'),
